@@ -310,8 +310,14 @@ func ruleDecoderBounds(c *Ctx, r *Report, prefix string) {
 				guardB = g.iff.Block().Succs[0]
 				iffG = g.iff
 			}
+			// the same test from the other side: `if Available() < 273 { break }` - the operations lie on
+			// the false edge
+			if (roleCallTo(avail)(g.x) && roleConst(273)(g.y) && g.op == token.LSS) || (roleCallTo(avail)(g.y) && roleConst(273)(g.x) && g.op == token.GTR) {
+				guardB = g.iff.Block().Succs[1]
+				iffG = g.iff
+			}
 		}
-		ok := guardB != nil
+		ok := guardB != nil && len(guardB.Preds) == 1
 		n := 0
 		if ok {
 			for _, b := range theCtx.GB(fn) {
